@@ -884,6 +884,45 @@ def check_truncated_poisson(case, ctx):
     ctx.nontrivial(tail)
 
 
+
+# --------------------------------------------------------------------------
+# C16.cross_process: "two samplers built with the same parameters and seed produce the same
+# sequence of samples" -- also when the second sampler lives in another interpreter run (another
+# PYTHONHASHSEED): nothing may depend on the iteration order of a set of string labels
+
+
+def cross_digest(case):
+    """The sample sequence of a case as plain JSON (labels by repr, hyperedges sorted)."""
+    try:
+        _, samples = draw_samples(case)
+    except Discarded:
+        return "discarded"
+    return [sorted([sorted(map(repr, e)), int(w)] for e, w in table(h).items()) for h in samples]
+
+
+@st.composite
+def cross_cases(draw):
+    case = draw(cases(("initial", "initial", "sequences")))
+    case["hashseed"] = draw(st.sampled_from([1, 12345]))
+    return case
+
+
+def check_cross_process(case, ctx):
+    from ..common import in_child
+    steps = _classify(case, ctx)
+    here = cross_digest(case)
+    there = in_child("hgxverif.props.c16", "cross_digest", case, case["hashseed"])
+    require(here == there,
+            lambda: "the sampler built with seed %d (mode %s) yields %r in this interpreter and %r "
+                    "in one started with PYTHONHASHSEED=%d"
+            % (case["seed"], case["mode"], here, there, case["hashseed"]),
+            key="depends-on-hashseed")
+    strs = case["mode"] == "initial" and case["initial"]["kind"] == "strs"
+    if strs:
+        ctx.label("string labels")
+    ctx.nontrivial(strs and steps >= 10)
+
+
 CLAUSES = [
     Clause("validity", lambda tier: cases(("initial", "sequences", "model", "model")),
            check_validity, quick=200, thorough=1200, shards_quick=3,
@@ -906,6 +945,9 @@ CLAUSES = [
            check_determinism, quick=150, thorough=900, shards_quick=3,
            rule="at least 10 MCMC steps, a sample with >= 2 hyperedges and two different "
                 "samples in the sequence"),
+    Clause("cross_process", lambda tier: cross_cases(), check_cross_process, quick=30,
+           thorough=60,
+           rule="initial hypergraph with string labels, at least 10 MCMC steps"),
     Clause("truncated_poisson", lambda tier: tp_cases(),
            check_truncated_poisson, quick=400, thorough=4000,
            rule="a uniform draw within 1e-7 of either end of [0, 1)"),
